@@ -1,10 +1,12 @@
 #!/bin/bash
-# re-run every kept seeded change against its property's quick check (and extra checks given in seeded/<id>/extra_checks)
+# re-run every kept seeded change against its property's quick check (and extra checks given in seeded/<id>/extra_checks);
+# "tools/seed_all.sh full" also repeats the confirmation in a scratch worktree (suite + demo), otherwise the recorded one is kept
 cd /verif
+stage="--stage check"; [ "$1" = "full" ] && stage=""
 for d in seeded/C*-*; do
   id=$(basename $d); p=${id%-*}; n=${id#*-}
   extra=""; [ -f $d/extra_checks ] && extra=",$(cat $d/extra_checks)"
-  tools/seed_eval.py $p $n --checks $p$extra 2>&1 | /venv/bin/python -c "
+  tools/seed_eval.py $p $n --checks $p$extra $stage 2>&1 | /venv/bin/python -c "
 import sys,json
 m=json.load(sys.stdin); print(m['property'],m['change'],'confirmed',m['confirmed'],{k:v['verdict'] for k,v in m['checks'].items()})"
 done
